@@ -222,7 +222,7 @@ static void dg_file(dg_t *d, const char *path)
 
 #define NF 2			/* calibration frequencies */
 #define MAXH 12			/* parameter handles a script keeps */
-#define MAXFILES 4
+#define MAXFILES 6
 #define MAXSTEPS 400
 
 static struct world {
@@ -722,9 +722,10 @@ typedef struct sim {
     double noise;
 } sim_t;
 
+#define MAXC 9			/* cells of a measurement matrix (3x3) */
 typedef struct mbuf {
-    double complex mv[4][NF], av[4][NF];
-    double complex *m[4], *a[4];
+    double complex mv[MAXC][NF], av[MAXC][NF];
+    double complex *m[MAXC], *a[MAXC];
     int a_rows, a_cols;
 } mbuf_t;
 
@@ -745,20 +746,21 @@ static void sim_init(sim_t *s, ets_type_t type, int rows, int cols,
 	ets_at_frequency(&e0, &e1, 0.3 * k / (NF - 1), &s->e[k]);
 }
 
-/* readings of a device with the full 2x2 S matrix sfull[k] per frequency */
-static void sim_measure(sim_t *s, double complex sfull[NF][4], int ab,
+/* readings of a device with the full ports x ports S matrix sfull[k]
+ * (row-major, stride ports) per frequency */
+static void sim_measure(sim_t *s, double complex sfull[NF][MAXC], int ab,
 	mbuf_t *mb)
 {
     int R = s->rows, C = s->cols;
 
-    for (int i = 0; i < 4; ++i) {
+    for (int i = 0; i < MAXC; ++i) {
 	mb->m[i] = mb->mv[i];
 	mb->a[i] = mb->av[i];
     }
     mb->a_rows = ets_column_systems(s->type) ? 1 : C;
     mb->a_cols = C;
     for (int k = 0; k < NF; ++k) {
-	double complex m[4], a[4], b[4];
+	double complex m[MAXC], a[MAXC], b[MAXC];
 
 	if (ets_measure(&s->e[k], sfull[k], m) != 0)
 	    machinery("simulated standard is singular", NULL);
@@ -783,7 +785,7 @@ static void sim_measure(sim_t *s, double complex sfull[NF][4], int ab,
 static void sim_measure_const(sim_t *s, double complex s11, double complex s12,
 	double complex s21, double complex s22, int ab, mbuf_t *mb)
 {
-    double complex sf[NF][4];
+    double complex sf[NF][MAXC];
 
     for (int k = 0; k < NF; ++k) {
 	sf[k][0] = s11;
@@ -911,15 +913,15 @@ static void script_params(void)
 		VNACAL_OPEN));
     STEP_IDX("make_correlated_scalar", W.h[6],
 	    vnacal_make_correlated_parameter(vcp, W.h[0], fv3, 3, sv3));
+    W.npval = 1;
     STEP_CPLX("get_value_scalar", W.pval[0], vnacal_get_parameter_value(vcp,
 		W.h[0], 1.0e9));
-    W.npval = 1;
+    W.npval = 2;
     STEP_CPLX("get_value_vector", W.pval[1], vnacal_get_parameter_value(vcp,
 		W.h[1], 1.25e9));
-    W.npval = 2;
+    W.npval = 3;
     STEP_CPLX("get_value_knot", W.pval[2], vnacal_get_parameter_value(vcp,
 		W.h[1], 2.0e9));
-    W.npval = 3;
     /* deletion in several orders: a held parameter first, then its holder */
     STEP_RC("delete_unknown", vnacal_delete_parameter(vcp, W.h[2]));
     W.h[2] = -1;
@@ -959,7 +961,7 @@ bail:
     STEP_RC("set_z0", vnacal_new_set_z0(vnp, 50.0))
 
 /* DUT measured and corrected in the apply step */
-static void dut_s(double complex sf[NF][4])
+static void dut_s(double complex sf[NF][MAXC])
 {
     for (int k = 0; k < NF; ++k) {
 	sf[k][0] = 0.2 + 0.1 * I * (k + 1);
@@ -977,7 +979,8 @@ static void script_t8(void)
 	{ "add_short1", "add_open1", "add_match1" },
 	{ "add_short2", "add_open2", "add_match2" } };
     const double complex g[3] = { G_SHORT, G_OPEN, G_MATCH };
-    double complex sf[NF][4];
+    static const double fi[2] = { 1.2e9, 1.7e9 };	/* off the grid */
+    double complex sf[NF][MAXC];
     const char *path;
 
     CAL_BEGIN(ETS_T8, VNACAL_T8, 11, 0.0);
@@ -1002,6 +1005,9 @@ static void script_t8(void)
     sim_measure(&sim, sf, 0, &mb);
     STEP_RC("apply", vnacal_apply_m(vcp, W.ci[0], g_fv, NF, mb.m, 2, 2,
 		W.vd[0]));
+    STEP_PTR("alloc_result2", W.vd[1], vnadata_alloc(vt_errfn, NULL));
+    STEP_RC("apply_interpolated", vnacal_apply_m(vcp, W.ci[0], fi, 2, mb.m,
+		2, 2, W.vd[1]));
     STEP_RC("property_set", vnacal_property_set(vcp, W.ci[0],
 		"operator=fault injector"));
     STEP_RC("property_set_list", vnacal_property_set(vcp, W.ci[0],
@@ -1011,6 +1017,7 @@ static void script_t8(void)
     STEP_VOID("new_free", (vnacal_new_free(vnp), W.vn = NULL));
     STEP_VOID("free", (vnacal_free(vcp), W.vc[0] = NULL));
     STEP_VOID("free_result", (vnadata_free(W.vd[0]), W.vd[0] = NULL));
+    STEP_VOID("free_result2", (vnadata_free(W.vd[1]), W.vd[1] = NULL));
 bail:
     cleanup();
 }
@@ -1018,7 +1025,7 @@ bail:
 /* (4) E12 2x2, a/b form: double reflects, line, through */
 static void script_e12(void)
 {
-    double complex sf[NF][4];
+    double complex sf[NF][MAXC];
     int line[4];
 
     CAL_BEGIN(ETS_E12, VNACAL_E12, 12, 0.0);
@@ -1091,7 +1098,7 @@ static void script_t16(void)
 	{ "add_match_open", { VNACAL_MATCH, VNACAL_ZERO, VNACAL_ZERO,
 				VNACAL_OPEN }, { 0.0, 0.0, 0.0, 1.0 } },
     };
-    double complex sf[NF][4];
+    double complex sf[NF][MAXC];
 
     CAL_BEGIN(ETS_T16, VNACAL_T16, 13, 1.0e-4);
     STEP_RC("set_m_error", vnacal_new_set_m_error(vnp, efv, 3, nfv, trv));
@@ -1121,7 +1128,7 @@ bail:
 static void script_lm(void)
 {
     const double complex truth = 0.85 + 0.2 * I;	/* a poor open */
-    double complex sf[NF][4];
+    double complex sf[NF][MAXC];
 
     CAL_BEGIN(ETS_T8, VNACAL_T8, 14, 0.0);
     STEP_IDX("make_unknown", W.h[0], vnacal_make_unknown_parameter(vcp,
@@ -1135,6 +1142,9 @@ static void script_lm(void)
     sim_measure_const(&sim, G_MATCH, 0.0, 0.0, 0.1, 0, &mb);
     STEP_RC("add_match1", vnacal_new_add_single_reflect_m(vnp, mb.m, 2, 2,
 		VNACAL_MATCH, 1));
+    /* too early: port 2 has no standard yet; "fail later, stay usable" */
+    g_allow_fail = 1;
+    STEP_RC("solve_too_early", vnacal_new_solve(vnp));
     sim_measure_const(&sim, 0.2, 0.0, 0.0, G_SHORT, 0, &mb);
     STEP_RC("add_short2", vnacal_new_add_single_reflect_m(vnp, mb.m, 2, 2,
 		VNACAL_SHORT, 2));
@@ -1147,9 +1157,9 @@ static void script_lm(void)
     sim_measure_const(&sim, 0.0, 1.0, 1.0, 0.0, 0, &mb);
     STEP_RC("add_through", vnacal_new_add_through_m(vnp, mb.m, 2, 2, 1, 2));
     STEP_RC("solve", vnacal_new_solve(vnp));
+    W.npval = 1;
     STEP_CPLX("get_solved_value", W.pval[0], vnacal_get_parameter_value(vcp,
 		W.h[0], 1.0e9));
-    W.npval = 1;
     STEP_IDX("add_calibration", W.ci[0], vnacal_add_calibration(vcp,
 		"cal_lm", vnp));
     STEP_PTR("alloc_result", W.vd[0], vnadata_alloc(vt_errfn, NULL));
@@ -1172,7 +1182,7 @@ static void script_trl(void)
 {
     const double complex rtruth = -0.92 + 0.15 * I;
     double complex ltruth[NF], lguess[NF];
-    double complex sf[NF][4];
+    double complex sf[NF][MAXC];
     int line[4];
 
     CAL_BEGIN(ETS_T8, VNACAL_T8, 15, 0.0);
@@ -1206,12 +1216,12 @@ static void script_trl(void)
     line[3] = VNACAL_MATCH;
     STEP_RC("add_line", vnacal_new_add_line_m(vnp, mb.m, 2, 2, line, 1, 2));
     STEP_RC("solve", vnacal_new_solve(vnp));
+    W.npval = 1;
     STEP_CPLX("get_reflect", W.pval[0], vnacal_get_parameter_value(vcp,
 		W.h[0], 2.0e9));
-    W.npval = 1;
+    W.npval = 2;
     STEP_CPLX("get_line", W.pval[1], vnacal_get_parameter_value(vcp,
 		W.h[2], 1.0e9));
-    W.npval = 2;
     STEP_IDX("add_calibration", W.ci[0], vnacal_add_calibration(vcp,
 		"cal_trl", vnp));
     STEP_VOID("free", (vnacal_free(vcp), W.vc[0] = NULL, W.vn = NULL));
@@ -1350,6 +1360,631 @@ bail:
     cleanup();
 }
 
+/* solved 2x2 T8 SOLT calibration prepared outside the history */
+static vnacal_new_t *setup_solt_t8(vnacal_t *vcp, uint64_t seed)
+{
+    sim_t sim;
+    mbuf_t mb;
+    vnacal_new_t *vnp;
+    static const int refl[3] = { VNACAL_SHORT, VNACAL_OPEN, VNACAL_MATCH };
+    const double complex g[3] = { G_SHORT, G_OPEN, G_MATCH };
+    int bad = 0;
+
+    ++vt_pause;
+    sim_init(&sim, ETS_T8, 2, 2, seed, 0.0);
+    vnp = LIB(vnacal_new_alloc(vcp, VNACAL_T8, 2, 2, NF));
+    if (vnp == NULL)
+	machinery("cannot prepare a calibration", NULL);
+    bad |= LIB(vnacal_new_set_frequency_vector(vnp, g_fv));
+    for (int p = 0; p < 2; ++p) {
+	for (int r = 0; r < 3; ++r) {
+	    if (p == 0)
+		sim_measure_const(&sim, g[r], 0.0, 0.0, 0.1, 0, &mb);
+	    else
+		sim_measure_const(&sim, 0.1, 0.0, 0.0, g[r], 0, &mb);
+	    bad |= LIB(vnacal_new_add_single_reflect_m(vnp, mb.m, 2, 2,
+			refl[r], p + 1));
+	}
+    }
+    sim_measure_const(&sim, 0.0, 1.0, 1.0, 0.0, 0, &mb);
+    bad |= LIB(vnacal_new_add_through_m(vnp, mb.m, 2, 2, 1, 2));
+    bad |= LIB(vnacal_new_solve(vnp));
+    --vt_pause;
+    if (bad)
+	machinery("cannot prepare a calibration", NULL);
+    return vnp;
+}
+
+/* (10) UE14 2x1 (detect-only second port) with measurement-error model:
+ * iterative weighted solve, p-value */
+static void script_ue14(void)
+{
+    static const double nf1 = 1.0e-4;
+    sim_t sim;
+    mbuf_t mb;
+    vnacal_t *vcp;
+    vnacal_new_t *vnp;
+
+    sim_init(&sim, ETS_UE14, 2, 1, 17, 1.0e-4);
+    STEP_PTR("create", W.vc[0], vnacal_create(vt_errfn, NULL));
+    vcp = W.vc[0];
+    STEP_PTR("new_alloc", W.vn, vnacal_new_alloc(vcp, VNACAL_UE14, 2, 1, NF));
+    vnp = W.vn;
+    STEP_RC("set_frequency_vector",
+	    vnacal_new_set_frequency_vector(vnp, g_fv));
+    STEP_RC("set_m_error", vnacal_new_set_m_error(vnp, NULL, 1, &nf1, NULL));
+    STEP_RC("set_pvalue_limit", vnacal_new_set_pvalue_limit(vnp, 1.0e-9));
+    sim_measure_const(&sim, G_SHORT, 0.0, 0.0, 0.1, 0, &mb);
+    STEP_RC("add_short1", vnacal_new_add_single_reflect_m(vnp, mb.m, 2, 1,
+		VNACAL_SHORT, 1));
+    sim_measure_const(&sim, G_OPEN, 0.0, 0.0, 0.1, 0, &mb);
+    STEP_RC("add_open1", vnacal_new_add_single_reflect_m(vnp, mb.m, 2, 1,
+		VNACAL_OPEN, 1));
+    sim_measure_const(&sim, G_MATCH, 0.0, 0.0, 0.1, 0, &mb);
+    STEP_RC("add_match1", vnacal_new_add_single_reflect_m(vnp, mb.m, 2, 1,
+		VNACAL_MATCH, 1));
+    sim_measure_const(&sim, 0.0, 1.0, 1.0, 0.0, 0, &mb);
+    STEP_RC("add_through", vnacal_new_add_through_m(vnp, mb.m, 2, 1, 1, 2));
+    STEP_RC("solve", vnacal_new_solve(vnp));
+    STEP_IDX("add_calibration", W.ci[0], vnacal_add_calibration(vcp,
+		"cal_ue14", vnp));
+    STEP_VOID("new_free", (vnacal_new_free(vnp), W.vn = NULL));
+    STEP_VOID("free", (vnacal_free(vcp), W.vc[0] = NULL));
+bail:
+    cleanup();
+}
+
+/* (11) TE10 2x2, a/b form (a is 2x2), leakage terms */
+static void script_te10(void)
+{
+    static const int refl[3] = { VNACAL_SHORT, VNACAL_OPEN, VNACAL_MATCH };
+    static const char *rname[2][3] = {
+	{ "add_short1", "add_open1", "add_match1" },
+	{ "add_short2", "add_open2", "add_match2" } };
+    const double complex g[3] = { G_SHORT, G_OPEN, G_MATCH };
+    double complex sf[NF][MAXC];
+
+    CAL_BEGIN(ETS_TE10, VNACAL_TE10, 18, 0.0);
+    for (int p = 0; p < 2; ++p) {
+	for (int r = 0; r < 3; ++r) {
+	    if (p == 0)
+		sim_measure_const(&sim, g[r], 0.0, 0.0, 0.15 - 0.1 * I, 1, &mb);
+	    else
+		sim_measure_const(&sim, -0.1 + 0.2 * I, 0.0, 0.0, g[r], 1, &mb);
+	    STEP_RC(rname[p][r], vnacal_new_add_single_reflect(vnp,
+			mb.a, mb.a_rows, mb.a_cols, mb.m, 2, 2,
+			refl[r], p + 1));
+	}
+    }
+    sim_measure_const(&sim, 0.0, 1.0, 1.0, 0.0, 1, &mb);
+    STEP_RC("add_through", vnacal_new_add_through(vnp, mb.a, mb.a_rows,
+		mb.a_cols, mb.m, 2, 2, 1, 2));
+    STEP_RC("solve", vnacal_new_solve(vnp));
+    STEP_IDX("add_calibration", W.ci[0], vnacal_add_calibration(vcp,
+		"cal_te10", vnp));
+    STEP_PTR("alloc_result", W.vd[0], vnadata_alloc(vt_errfn, NULL));
+    dut_s(sf);
+    sim_measure(&sim, sf, 1, &mb);
+    STEP_RC("apply", vnacal_apply(vcp, W.ci[0], g_fv, NF, mb.a, mb.a_rows,
+		mb.a_cols, mb.m, 2, 2, W.vd[0]));
+    STEP_VOID("free", (vnacal_free(vcp), W.vc[0] = NULL, W.vn = NULL));
+    STEP_VOID("free_result", (vnadata_free(W.vd[0]), W.vd[0] = NULL));
+bail:
+    cleanup();
+}
+
+/* (12) U16 2x2 without error model: plain linear solve of the 16-term
+ * system from scalar-parameter standards given through a port map */
+static void script_u16(void)
+{
+    static const int map21[2] = { 2, 1 };
+    static const struct {
+	const char *name;
+	double complex g[4];
+    } std[] = {
+	{ "add_through", { 0.0, 1.0, 1.0, 0.0 } },
+	{ "add_match_match", { 0.0, 0.0, 0.0, 0.0 } },
+	{ "add_open_open", { 1.0, 0.0, 0.0, 1.0 } },
+	{ "add_short_short", { -1.0, 0.0, 0.0, -1.0 } },
+	{ "add_open_short", { 1.0, 0.0, 0.0, -1.0 } },
+	{ "add_short_open", { -1.0, 0.0, 0.0, 1.0 } },
+    };
+    int sh[4];
+
+    CAL_BEGIN(ETS_U16, VNACAL_U16, 19, 0.0);
+    STEP_IDX("make_zero", W.h[0], vnacal_make_scalar_parameter(vcp, 0.0));
+    STEP_IDX("make_one", W.h[1], vnacal_make_scalar_parameter(vcp, 1.0));
+    STEP_IDX("make_minus_one", W.h[2], vnacal_make_scalar_parameter(vcp,
+		-1.0));
+    for (int i = 0; i < (int)(sizeof(std) / sizeof(std[0])); ++i) {
+	/* the standard is connected crosswise: its port 1 on VNA port 2 */
+	sim_measure_const(&sim, std[i].g[3], std[i].g[2], std[i].g[1],
+		std[i].g[0], 0, &mb);
+	for (int c = 0; c < 4; ++c)
+	    sh[c] = std[i].g[c] == 0.0 ? W.h[0] :
+		std[i].g[c] == 1.0 ? W.h[1] : W.h[2];
+	STEP_RC(std[i].name, vnacal_new_add_mapped_matrix_m(vnp, mb.m, 2, 2,
+		    sh, 2, 2, map21));
+    }
+    STEP_RC("solve", vnacal_new_solve(vnp));
+    STEP_IDX("add_calibration", W.ci[0], vnacal_add_calibration(vcp,
+		"cal_u16", vnp));
+    STEP_RC("delete_zero", vnacal_delete_parameter(vcp, W.h[0]));
+    W.h[0] = -1;
+    STEP_VOID("new_free", (vnacal_new_free(vnp), W.vn = NULL));
+    STEP_VOID("free", (vnacal_free(vcp), W.vc[0] = NULL));
+    for (int i = 0; i < MAXH; ++i)
+	W.h[i] = -1;
+bail:
+    cleanup();
+}
+
+/* (13) T8 with an unknown reflect measured twice, the second connection
+ * described by a correlated parameter: LM with correlation equations */
+static void script_corr(void)
+{
+    static const double sigma = 0.02;
+    const double complex t0 = 0.9 + 0.05 * I, t1 = 0.9 + 0.06 * I;
+
+    CAL_BEGIN(ETS_T8, VNACAL_T8, 20, 0.0);
+    STEP_IDX("make_unknown", W.h[0], vnacal_make_unknown_parameter(vcp,
+		VNACAL_OPEN));
+    STEP_IDX("make_correlated", W.h[1], vnacal_make_correlated_parameter(vcp,
+		W.h[0], NULL, 1, &sigma));
+    sim_measure_const(&sim, G_SHORT, 0.0, 0.0, 0.1, 0, &mb);
+    STEP_RC("add_short1", vnacal_new_add_single_reflect_m(vnp, mb.m, 2, 2,
+		VNACAL_SHORT, 1));
+    sim_measure_const(&sim, G_OPEN, 0.0, 0.0, 0.1, 0, &mb);
+    STEP_RC("add_open1", vnacal_new_add_single_reflect_m(vnp, mb.m, 2, 2,
+		VNACAL_OPEN, 1));
+    sim_measure_const(&sim, G_MATCH, 0.0, 0.0, 0.1, 0, &mb);
+    STEP_RC("add_match1", vnacal_new_add_single_reflect_m(vnp, mb.m, 2, 2,
+		VNACAL_MATCH, 1));
+    sim_measure_const(&sim, 0.2, 0.0, 0.0, G_SHORT, 0, &mb);
+    STEP_RC("add_short2", vnacal_new_add_single_reflect_m(vnp, mb.m, 2, 2,
+		VNACAL_SHORT, 2));
+    sim_measure_const(&sim, 0.2, 0.0, 0.0, G_MATCH, 0, &mb);
+    STEP_RC("add_match2", vnacal_new_add_single_reflect_m(vnp, mb.m, 2, 2,
+		VNACAL_MATCH, 2));
+    sim_measure_const(&sim, 0.2, 0.0, 0.0, t0, 0, &mb);
+    STEP_RC("add_unknown2", vnacal_new_add_single_reflect_m(vnp, mb.m, 2, 2,
+		W.h[0], 2));
+    sim_measure_const(&sim, 0.2, 0.0, 0.0, t1, 0, &mb);
+    STEP_RC("add_correlated2", vnacal_new_add_single_reflect_m(vnp, mb.m,
+		2, 2, W.h[1], 2));
+    sim_measure_const(&sim, 0.0, 1.0, 1.0, 0.0, 0, &mb);
+    STEP_RC("add_through", vnacal_new_add_through_m(vnp, mb.m, 2, 2, 1, 2));
+    STEP_RC("solve", vnacal_new_solve(vnp));
+    W.npval = 1;
+    STEP_CPLX("get_correlated", W.pval[0], vnacal_get_parameter_value(vcp,
+		W.h[1], 1.0e9));
+    STEP_IDX("add_calibration", W.ci[0], vnacal_add_calibration(vcp,
+		"cal_corr", vnp));
+    STEP_RC("delete_unknown", vnacal_delete_parameter(vcp, W.h[0]));
+    W.h[0] = -1;
+    STEP_VOID("free", (vnacal_free(vcp), W.vc[0] = NULL, W.vn = NULL));
+    for (int i = 0; i < MAXH; ++i)
+	W.h[i] = -1;
+bail:
+    cleanup();
+}
+
+/* (14) vnadata, second part: vectors, matrices, z0 vectors, types, format
+ * specifiers, FILE based save/load, Touchstone 2 and NPD with per-frequency
+ * impedances */
+static void script_vnadata2(void)
+{
+    static const double fv[3] = { 1.0e6, 2.0e6, 4.0e6 };
+    static const double complex z2[2] = { 50.0, 75.0 };
+    static const double complex fz[2] = { 40.0 + 2.0 * I, 60.0 - 3.0 * I };
+    double complex mat[4] = { 0.1 + 0.2 * I, 0.8, 0.7 - 0.1 * I, -0.3 * I };
+    double complex vec[3] = { 0.25, 0.5 * I, -0.75 };
+    const char *ts2, *npd, *tmp;
+
+    STEP_PTR("alloc_and_init", W.vd[0], vnadata_alloc_and_init(vt_errfn, NULL,
+		VPT_S, 2, 2, 3));
+    STEP_RC("set_frequency_vector", vnadata_set_frequency_vector(W.vd[0],
+		fv));
+    for (int f = 0; f < 3; ++f) {
+	mat[1] = 0.8 - 0.1 * f;
+	STEP_RC("set_matrix", vnadata_set_matrix(W.vd[0], f, mat));
+    }
+    STEP_RC("set_from_vector", vnadata_set_from_vector(W.vd[0], 1, 1, vec));
+    STEP_RC("set_z0_vector", vnadata_set_z0_vector(W.vd[0], z2));
+    STEP_RC("set_format_many", vnadata_set_format(W.vd[0],
+		"SdB,Zri,Yma,PRC,SRL,IL,RL,VSWR"));
+    STEP_RC("set_fprecision", vnadata_set_fprecision(W.vd[0], 9));
+    STEP_RC("set_dprecision", vnadata_set_dprecision(W.vd[0], 8));
+    npd = scratch_file("c.npd");
+    STEP_RC("cksave_npd", vnadata_cksave(W.vd[0], npd));
+    W.fp = fopen(npd, "w");
+    if (W.fp == NULL)
+	machinery("cannot create", npd);
+    STEP_RC("fsave_npd", (rewind(W.fp), (void)!ftruncate(fileno(W.fp), 0),
+		errno = 0, vnadata_fsave(W.vd[0], W.fp, npd)));
+    fclose(W.fp);
+    W.fp = NULL;
+    STEP_RC("set_format_ts2", vnadata_set_format(W.vd[0], "Sri"));
+    ts2 = scratch_file("d.ts");
+    STEP_RC("save_touchstone2", vnadata_save(W.vd[0], ts2));
+    STEP_PTR("alloc_load", W.vd[1], vnadata_alloc(vt_errfn, NULL));
+    STEP_RC("load_touchstone2", vnadata_load(W.vd[1], ts2));
+    W.fp = fopen(npd, "r");
+    if (W.fp == NULL)
+	machinery("cannot reopen", npd);
+    STEP_RC("fload_npd", (rewind(W.fp), errno = 0,
+		vnadata_fload(W.vd[1], W.fp, npd)));
+    fclose(W.fp);
+    W.fp = NULL;
+    /* per-frequency impedances through a file */
+    STEP_RC("set_fz0_vector", vnadata_set_fz0_vector(W.vd[0], 1, fz));
+    STEP_RC("set_format_fz0", vnadata_set_format(W.vd[0], "Sma,Zri"));
+    STEP_RC("set_filetype_npd", vnadata_set_filetype(W.vd[0],
+		VNADATA_FILETYPE_NPD));
+    tmp = scratch_file("e.npd");
+    STEP_RC("save_npd_fz0", vnadata_save(W.vd[0], tmp));
+    STEP_RC("load_npd_fz0", vnadata_load(W.vd[1], tmp));
+    STEP_RC("convert_fz0_inplace", vnadata_convert(W.vd[1], W.vd[1], VPT_T));
+    STEP_RC("set_type", vnadata_set_type(W.vd[1], VPT_U));
+    STEP_RC("init_zin", vnadata_init(W.vd[1], VPT_ZIN, 1, 3, 2));
+    STEP_RC("resize_zin", vnadata_resize(W.vd[1], VPT_ZIN, 1, 5, 4));
+    STEP_RC("set_fz0_zin", vnadata_set_fz0(W.vd[1], 3, 4, 25.0));
+    STEP_RC("init_again", vnadata_init(W.vd[1], VPT_H, 2, 2, 1));
+    STEP_VOID("free1", (vnadata_free(W.vd[1]), W.vd[1] = NULL));
+    STEP_VOID("free0", (vnadata_free(W.vd[0]), W.vd[0] = NULL));
+bail:
+    cleanup();
+}
+
+/* (15) calibration container: several calibrations, replacement by name,
+ * deletion, every vnacal_property_* function, precision, save */
+static void script_calstore(void)
+{
+    vnacal_t *vcp;
+    vnacal_new_t *vnp;
+    const char *path;
+    const char **keys = NULL;
+    const char *val = NULL;
+    vnaproperty_t **sub = NULL;
+    int n;
+
+    STEP_PTR("create", W.vc[0], vnacal_create(vt_errfn, NULL));
+    vcp = W.vc[0];
+    vnp = W.vn = setup_solt_t8(vcp, 21);
+    STEP_IDX("add_calibration_a", W.ci[0], vnacal_add_calibration(vcp, "a",
+		vnp));
+    STEP_RC("solve_again", vnacal_new_solve(vnp));
+    STEP_IDX("add_calibration_b", W.ci[1], vnacal_add_calibration(vcp, "b",
+		vnp));
+    STEP_RC("property_set_a", vnacal_property_set(vcp, W.ci[0],
+		"who.first=x y"));
+    STEP_RC("property_set_a2", vnacal_property_set(vcp, W.ci[0],
+		"who.second=z"));
+    STEP_RC("property_set_b", vnacal_property_set(vcp, W.ci[1],
+		"list[1]=one"));
+    STEP_RC("property_set_global", vnacal_property_set(vcp, -1, "g=1"));
+    STEP_CORE("property_type", n = vnacal_property_type(vcp, W.ci[0], "who");
+	    ok_ = n == 'm'; bad_ = n != 'm' && n != -1);
+    STEP_CORE("property_count", n = vnacal_property_count(vcp, W.ci[1],
+		"list"); ok_ = n == 2; bad_ = n != 2 && n != -1);
+    STEP_CORE("property_keys", keys = vnacal_property_keys(vcp, W.ci[0],
+		"who"); ok_ = keys != NULL;
+	    if (keys != NULL) { ++vt_pause; free((void *)keys); --vt_pause; });
+    STEP_CORE("property_get", val = vnacal_property_get(vcp, W.ci[0],
+		"who.first"); ok_ = val != NULL;
+	    bad_ = val != NULL && strcmp(val, "x y") != 0);
+    STEP_CORE("property_get_subtree", errno = 0;
+	    ok_ = vnacal_property_get_subtree(vcp, W.ci[1], "list[1]") != NULL);
+    STEP_CORE("property_set_subtree", sub = vnacal_property_set_subtree(vcp,
+		W.ci[1], "made.here{}"); ok_ = sub != NULL);
+    STEP_RC("property_delete", vnacal_property_delete(vcp, W.ci[0],
+		"who.second"));
+    STEP_RC("solve_third", vnacal_new_solve(vnp));
+    STEP_IDX("replace_calibration_a", W.ci[0], vnacal_add_calibration(vcp,
+		"a", vnp));
+    STEP_RC("delete_calibration_b", vnacal_delete_calibration(vcp, W.ci[1]));
+    W.ci[1] = -1;
+    STEP_RC("set_fprecision", vnacal_set_fprecision(vcp, 4));
+    STEP_RC("set_dprecision_max", vnacal_set_dprecision(vcp,
+		VNACAL_MAX_PRECISION));
+    path = scratch_file("store.vnacal");
+    STEP_RC("save", vnacal_save(vcp, path));
+    STEP_VOID("free", (vnacal_free(vcp), W.vc[0] = NULL, W.vn = NULL));
+bail:
+    cleanup();
+}
+
+/* (16) UE10 2x2, m form with abbreviated measurement matrices (1x1, rows x 1,
+ * 1 x columns) and an a/b mapped-matrix line */
+static void script_ue10(void)
+{
+    double complex *m1[4];
+    int line[4];
+    static const int map12[2] = { 1, 2 };
+
+    CAL_BEGIN(ETS_UE10, VNACAL_UE10, 22, 0.0);
+    sim_measure_const(&sim, G_SHORT, 0.0, 0.0, 0.1, 0, &mb);
+    m1[0] = mb.m[0];				/* 1x1: m11 */
+    STEP_RC("add_short1_1x1", vnacal_new_add_single_reflect_m(vnp, m1, 1, 1,
+		VNACAL_SHORT, 1));
+    sim_measure_const(&sim, G_OPEN, 0.0, 0.0, 0.1, 0, &mb);
+    STEP_RC("add_open1_2x2", vnacal_new_add_single_reflect_m(vnp, mb.m, 2, 2,
+		VNACAL_OPEN, 1));
+    sim_measure_const(&sim, G_MATCH, 0.0, 0.0, 0.1, 0, &mb);
+    m1[0] = mb.m[0];				/* rows x 1: m11, m21 */
+    m1[1] = mb.m[2];
+    STEP_RC("add_match1_2x1", vnacal_new_add_single_reflect_m(vnp, m1, 2, 1,
+		VNACAL_MATCH, 1));
+    sim_measure_const(&sim, 0.2, 0.0, 0.0, G_SHORT, 0, &mb);
+    m1[0] = mb.m[1];				/* rows x 1: m12, m22 */
+    m1[1] = mb.m[3];
+    STEP_RC("add_short2_2x1", vnacal_new_add_single_reflect_m(vnp, m1, 2, 1,
+		VNACAL_SHORT, 2));
+    sim_measure_const(&sim, 0.2, 0.0, 0.0, G_OPEN, 0, &mb);
+    STEP_RC("add_open2_2x2", vnacal_new_add_single_reflect_m(vnp, mb.m, 2, 2,
+		VNACAL_OPEN, 2));
+    sim_measure_const(&sim, 0.2, 0.0, 0.0, G_MATCH, 0, &mb);
+    STEP_RC("add_match2_2x2", vnacal_new_add_single_reflect_m(vnp, mb.m, 2, 2,
+		VNACAL_MATCH, 2));
+    sim_measure_const(&sim, 0.0, 1.0, 1.0, 0.0, 0, &mb);
+    STEP_RC("add_through", vnacal_new_add_through_m(vnp, mb.m, 2, 2, 1, 2));
+    STEP_IDX("make_scalar_line", W.h[0], vnacal_make_scalar_parameter(vcp,
+		0.4 + 0.4 * I));
+    line[0] = VNACAL_MATCH;
+    line[1] = W.h[0];
+    line[2] = W.h[0];
+    line[3] = VNACAL_MATCH;
+    sim_measure_const(&sim, 0.0, 0.4 + 0.4 * I, 0.4 + 0.4 * I, 0.0, 1, &mb);
+    STEP_RC("add_mapped_line_ab", vnacal_new_add_mapped_matrix(vnp,
+		mb.a, mb.a_rows, mb.a_cols, mb.m, 2, 2, line, 2, 2, map12));
+    STEP_RC("solve", vnacal_new_solve(vnp));
+    STEP_IDX("add_calibration", W.ci[0], vnacal_add_calibration(vcp,
+		"cal_ue10", vnp));
+    STEP_VOID("free", (vnacal_free(vcp), W.vc[0] = NULL, W.vn = NULL));
+    for (int i = 0; i < MAXH; ++i)
+	W.h[i] = -1;
+bail:
+    cleanup();
+}
+
+/* (17) T8 3x3: three ports, port maps, standards on a subset of the ports */
+static void script_t8p3(void)
+{
+    static const int refl[3] = { VNACAL_SHORT, VNACAL_OPEN, VNACAL_MATCH };
+    static const char *rname[3][3] = {
+	{ "add_short1", "add_open1", "add_match1" },
+	{ "add_short2", "add_open2", "add_match2" },
+	{ "add_short3", "add_open3", "add_match3" } };
+    const double complex g[3] = { G_SHORT, G_OPEN, G_MATCH };
+    const double complex term[3] = { 0.1, -0.05 + 0.1 * I, 0.08 * I };
+    double complex sf[NF][MAXC];
+    sim_t sim;
+    mbuf_t mb;
+    vnacal_t *vcp;
+    vnacal_new_t *vnp;
+    int line[4];
+
+    sim_init(&sim, ETS_T8, 3, 3, 23, 0.0);
+    STEP_PTR("create", W.vc[0], vnacal_create(vt_errfn, NULL));
+    vcp = W.vc[0];
+    STEP_PTR("new_alloc", W.vn, vnacal_new_alloc(vcp, VNACAL_T8, 3, 3, NF));
+    vnp = W.vn;
+    STEP_RC("set_frequency_vector",
+	    vnacal_new_set_frequency_vector(vnp, g_fv));
+    for (int p = 0; p < 3; ++p) {
+	for (int r = 0; r < 3; ++r) {
+	    for (int k = 0; k < NF; ++k) {
+		for (int i = 0; i < 9; ++i)
+		    sf[k][i] = 0.0;
+		for (int q = 0; q < 3; ++q)
+		    sf[k][q * 3 + q] = q == p ? g[r] : term[q];
+	    }
+	    sim_measure(&sim, sf, 0, &mb);
+	    STEP_RC(rname[p][r], vnacal_new_add_single_reflect_m(vnp, mb.m,
+			3, 3, refl[r], p + 1));
+	}
+    }
+    /* through between ports 1 and 2, port 3 terminated */
+    for (int k = 0; k < NF; ++k) {
+	for (int i = 0; i < 9; ++i)
+	    sf[k][i] = 0.0;
+	sf[k][0 * 3 + 1] = 1.0;
+	sf[k][1 * 3 + 0] = 1.0;
+	sf[k][2 * 3 + 2] = term[2];
+    }
+    sim_measure(&sim, sf, 0, &mb);
+    STEP_RC("add_through12", vnacal_new_add_through_m(vnp, mb.m, 3, 3, 1, 2));
+    /* attenuator from port 3 (its port 1) to port 1 (its port 2) */
+    STEP_IDX("make_scalar_line", W.h[0], vnacal_make_scalar_parameter(vcp,
+		0.6 - 0.2 * I));
+    for (int k = 0; k < NF; ++k) {
+	for (int i = 0; i < 9; ++i)
+	    sf[k][i] = 0.0;
+	sf[k][2 * 3 + 0] = 0.6 - 0.2 * I;
+	sf[k][0 * 3 + 2] = 0.6 - 0.2 * I;
+	sf[k][1 * 3 + 1] = term[1];
+    }
+    sim_measure(&sim, sf, 0, &mb);
+    line[0] = VNACAL_MATCH;
+    line[1] = W.h[0];
+    line[2] = W.h[0];
+    line[3] = VNACAL_MATCH;
+    STEP_RC("add_line31", vnacal_new_add_line_m(vnp, mb.m, 3, 3, line, 3, 1));
+    STEP_RC("solve", vnacal_new_solve(vnp));
+    STEP_IDX("add_calibration", W.ci[0], vnacal_add_calibration(vcp,
+		"cal_t8p3", vnp));
+    STEP_PTR("alloc_result", W.vd[0], vnadata_alloc(vt_errfn, NULL));
+    for (int k = 0; k < NF; ++k) {
+	for (int i = 0; i < 9; ++i)
+	    sf[k][i] = 0.05 * (i + 1) * cexp(I * 0.7 * (i + k));
+    }
+    sim_measure(&sim, sf, 0, &mb);
+    STEP_RC("apply", vnacal_apply_m(vcp, W.ci[0], g_fv, NF, mb.m, 3, 3,
+		W.vd[0]));
+    STEP_VOID("free", (vnacal_free(vcp), W.vc[0] = NULL, W.vn = NULL));
+    STEP_VOID("free_result", (vnadata_free(W.vd[0]), W.vd[0] = NULL));
+    for (int i = 0; i < MAXH; ++i)
+	W.h[i] = -1;
+bail:
+    cleanup();
+}
+
+/* (18) growth paths: parameter table 3 -> 8 -> 16 -> 32 slots with holes,
+ * calibration vector 1 -> 8 -> 16 slots, save and load of many calibrations */
+static void script_bulk(void)
+{
+    static const char *cname[10] = { "c0", "c1", "c2", "c3", "c4", "c5",
+	"c6", "c7", "c8", "c9" };
+    static const double fv3[3] = { 1.0e9, 1.5e9, 2.0e9 };
+    static const double complex gv3[3] = { 0.5, 0.5 * I, -0.5 };
+    vnacal_t *vcp;
+    vnacal_new_t *vnp;
+    const char *path;
+    int h[24];
+
+    STEP_PTR("create", W.vc[0], vnacal_create(vt_errfn, NULL));
+    vcp = W.vc[0];
+    W.hvc = 0;
+    for (int i = 0; i < 24; ++i)
+	h[i] = -1;
+    for (int i = 0; i < 18; ++i) {
+	STEP_IDX("make_scalar", h[i], vnacal_make_scalar_parameter(vcp,
+		    0.01 * i + 0.02 * I));
+	if (i < MAXH)
+	    W.h[i] = h[i];
+    }
+    for (int i = 0; i < 18; i += 2) {
+	STEP_RC("delete_scalar", vnacal_delete_parameter(vcp, h[i]));
+	h[i] = -1;
+	if (i < MAXH)
+	    W.h[i] = -1;
+    }
+    for (int i = 18; i < 24; ++i) {
+	STEP_IDX("make_vector", h[i], vnacal_make_vector_parameter(vcp,
+		    fv3, 3, gv3));
+    }
+    vnp = W.vn = setup_solt_t8(vcp, 24);
+    for (int i = 0; i < 10; ++i) {
+	if (i > 0) {
+	    ++vt_pause;
+	    if (LIB(vnacal_new_solve(vnp)) != 0)
+		machinery("cannot solve again", NULL);
+	    --vt_pause;
+	}
+	STEP_IDX("add_calibration", W.ci[0], vnacal_add_calibration(vcp,
+		    cname[i], vnp));
+    }
+    STEP_RC("delete_calibration3", vnacal_delete_calibration(vcp, 3));
+    STEP_RC("delete_calibration9", vnacal_delete_calibration(vcp, 9));
+    STEP_RC("property_set", vnacal_property_set(vcp, 5, "slot=five"));
+    path = scratch_file("bulk.vnacal");
+    STEP_RC("save", vnacal_save(vcp, path));
+    STEP_PTR("load", W.vc[1], vnacal_load(path, vt_errfn, NULL));
+    STEP_VOID("free_loaded", (vnacal_free(W.vc[1]), W.vc[1] = NULL));
+    STEP_VOID("free", (vnacal_free(vcp), W.vc[0] = NULL, W.vn = NULL));
+    for (int i = 0; i < MAXH; ++i)
+	W.h[i] = -1;
+bail:
+    cleanup();
+}
+
+/* write a file with the driver's own stdio (not part of the history) */
+static const char *scratch_text(const char *tag, const char *text)
+{
+    const char *path = scratch_file(tag);
+    FILE *fp = fopen(path, "w");
+
+    if (fp == NULL || fputs(text, fp) == EOF || fclose(fp) != 0)
+	machinery("cannot write", path);
+    return path;
+}
+
+/* (19) refused calls of every family: the allocation failure may strike the
+ * error report or the work done before the refusal; the call must fail with
+ * ENOMEM or with its ordinary error and leave everything as usable */
+#define REFUSED() (g_allow_fail = 1)
+static void script_refuse(void)
+{
+    static const double fdesc[2] = { 2.0e9, 1.0e9 };
+    static const double complex gv[2] = { 0.1, 0.2 };
+    sim_t sim;
+    mbuf_t mb;
+    vnacal_t *vcp;
+    vnacal_new_t *vnp;
+    vnacal_new_t *none = NULL;
+    const char *bad_ts, *bad_cal;
+    int idx = -1;
+
+    sim_init(&sim, ETS_T8, 2, 2, 25, 0.0);
+    sim_measure_const(&sim, G_SHORT, 0.0, 0.0, 0.1, 0, &mb);
+    bad_ts = scratch_text("bad.s2p", "# GHz S RI R 50\n1.0 0.1 0.2 zzz\n");
+    bad_cal = scratch_text("bad.vnacal", "#VNACal 1.0\ncalibrations: [ {\n");
+    STEP_PTR("alloc_and_init", W.vd[0], vnadata_alloc_and_init(vt_errfn, NULL,
+		VPT_S, 2, 2, 2));
+    REFUSED();
+    STEP_RC("set_cell_out_of_range", vnadata_set_cell(W.vd[0], 5, 0, 0, 1.0));
+    REFUSED();
+    STEP_RC("set_format_invalid", vnadata_set_format(W.vd[0], "Sxx,Zri"));
+    REFUSED();
+    STEP_RC("resize_invalid", vnadata_resize(W.vd[0], VPT_T, 3, 3, 1));
+    REFUSED();
+    STEP_RC("load_missing", vnadata_load(W.vd[0], "/nonexistent/dir/x.s2p"));
+    REFUSED();
+    STEP_RC("load_garbage", vnadata_load(W.vd[0], bad_ts));
+    STEP_PTR("create", W.vc[0], vnacal_create(vt_errfn, NULL));
+    vcp = W.vc[0];
+    REFUSED();
+    STEP_IDX("make_vector_descending", idx, vnacal_make_vector_parameter(vcp,
+		fdesc, 2, gv));
+    REFUSED();
+    STEP_IDX("make_unknown_bad_handle", idx,
+	    vnacal_make_unknown_parameter(vcp, 99));
+    REFUSED();
+    STEP_PTR("new_alloc_invalid", none, vnacal_new_alloc(vcp, VNACAL_T8,
+		3, 2, NF));
+    STEP_PTR("new_alloc", W.vn, vnacal_new_alloc(vcp, VNACAL_T8, 2, 2, NF));
+    vnp = W.vn;
+    STEP_RC("set_frequency_vector",
+	    vnacal_new_set_frequency_vector(vnp, g_fv));
+    REFUSED();
+    STEP_RC("add_reflect_bad_port", vnacal_new_add_single_reflect_m(vnp, mb.m,
+		2, 2, VNACAL_SHORT, 7));
+    REFUSED();
+    STEP_RC("add_reflect_bad_handle", vnacal_new_add_single_reflect_m(vnp,
+		mb.m, 2, 2, 99, 1));
+    REFUSED();
+    STEP_RC("solve_without_standards", vnacal_new_solve(vnp));
+    REFUSED();
+    STEP_IDX("add_calibration_unsolved", idx, vnacal_add_calibration(vcp,
+		"x", vnp));
+    REFUSED();
+    STEP_PTR("load_cal_missing", W.vc[1], vnacal_load("/nonexistent/c.vnacal",
+		vt_errfn, NULL));
+    REFUSED();
+    STEP_PTR("load_cal_garbage", W.vc[1], vnacal_load(bad_cal, vt_errfn,
+		NULL));
+    REFUSED();
+    STEP_RC("property_set_invalid", vnacal_property_set(vcp, -1, "a[=1"));
+    REFUSED();
+    STEP_RC("import_invalid_yaml", vnaproperty_import_yaml_from_string(
+		&W.root[0], "a: [1, 2\nb: {", vt_errfn, NULL));
+    REFUSED();
+    STEP_RC("set_invalid_descriptor", vnaproperty_set(&W.root[0], "a[x]=1"));
+    STEP_RC("set_valid", vnaproperty_set(&W.root[0], "a[1]=1"));
+    REFUSED();
+    STEP_RC("delete_missing", vnaproperty_delete(&W.root[0], "b.c"));
+    STEP_RC("delete_root", vnaproperty_delete(&W.root[0], "."));
+    /* everything is still usable: add a standard after all the refusals */
+    STEP_RC("add_short1", vnacal_new_add_single_reflect_m(vnp, mb.m, 2, 2,
+		VNACAL_SHORT, 1));
+    STEP_VOID("free", (vnacal_free(vcp), W.vc[0] = NULL, W.vn = NULL));
+    STEP_VOID("free_data", (vnadata_free(W.vd[0]), W.vd[0] = NULL));
+    (void)none;
+    (void)idx;
+bail:
+    cleanup();
+}
+
 /* ------------------------------------------------------------------- main */
 
 static const struct {
@@ -1365,6 +2000,16 @@ static const struct {
     { "trl", script_trl },
     { "load", script_load },
     { "yaml", script_yaml },
+    { "ue14", script_ue14 },
+    { "te10", script_te10 },
+    { "u16", script_u16 },
+    { "corr", script_corr },
+    { "vnadata2", script_vnadata2 },
+    { "calstore", script_calstore },
+    { "ue10", script_ue10 },
+    { "t8p3", script_t8p3 },
+    { "bulk", script_bulk },
+    { "refuse", script_refuse },
 };
 #define NSCRIPTS ((int)(sizeof(scripts) / sizeof(scripts[0])))
 
